@@ -119,6 +119,18 @@ BENIGN = [
       "            if self._is_in_cache(_hash):\n                self._get_from_cache(_hash)\n"),
      ("        if self.config_exists():\n            self.load_config()\n        else:\n            self._write_config()\n",
       "        # the constructor arguments win over a persisted configuration (and replace it)\n        self._write_config()\n")]),
+ ("b05_https_streamed_from_raw_with_decoding", RR, [
+     ("                response = requests.api.get(uri, allow_redirects=True)\n",
+      "                response = requests.api.get(uri, allow_redirects=True, stream=True)\n"),
+     ("                file.write(response.content)\n",
+      "                import shutil\n\n                response.raw.decode_content = True\n                shutil.copyfileobj(response.raw, file)\n")]),
+ ("b06_locks_around_registration_and_download_bookkeeping", CO, [
+     ("import uuid\n", "import threading\nimport uuid\n"),
+     ("MEGABYTE = 1000 * KILOBYTE\n", "MEGABYTE = 1000 * KILOBYTE\n_REGISTRY_LOCK = threading.RLock()\n_STARTED = threading.Event()\n"),
+     ("        if cache_misses := self.get_cache_misses(uris, directives):\n            was_succesfully_downloaded = _download_from_resources(",
+      "        with _REGISTRY_LOCK:\n            cache_misses = self.get_cache_misses(uris, directives)\n        if cache_misses:\n            was_succesfully_downloaded = _download_from_resources("),
+     ("        temporary_filepath = f\"{cache_miss.filepath}.{uuid.uuid4().hex}.part\"\n",
+      "        _STARTED.set()\n        _gate = threading.Semaphore(1)\n        with _gate, _REGISTRY_LOCK:\n            _known = os.path.exists(cache_miss.filepath)\n        _STARTED.wait(timeout=5)\n        temporary_filepath = f\"{cache_miss.filepath}.{uuid.uuid4().hex}.part\"\n")]),
 ]
 
 
